@@ -93,6 +93,17 @@ def sh(cmd, timeout=None, cwd=None, env=None, mem_gb=None, cancel=None):
     return rc, o.decode('utf-8', 'replace'), e.decode('utf-8', 'replace'), time.time() - t0, 0
 
 
+def _pid_alive(path):
+    m = re.search(r'smt2_dec_problem_(\d+)\.', os.path.basename(path))
+    if not m:
+        return False
+    try:
+        os.kill(int(m.group(1)), 0)
+        return True
+    except OSError:
+        return False
+
+
 def dflags(defs):
     out = []
     for k, v in sorted((defs or {}).items()):
@@ -359,7 +370,19 @@ def run_cbmc(u, harness, hdefs, unwind, unwindset, safety, timeout, witness=Fals
         cmd += ['--z3']
     if extra:
         cmd += extra
-    rc, o, e, w, _ = sh(cmd, timeout=timeout, mem_gb=mem_gb, cancel=cancel)
+    # cbmc writes the SMT2 problem of its --cvc5 back end to $TMPDIR and only removes it on a normal exit; runs that are
+    # cancelled (race) or time out would leave up to gigabytes behind: keep them under the per-run build directory
+    tmpd = os.path.join(BUILD, 'tmp')
+    os.makedirs(tmpd, exist_ok=True)
+    rc, o, e, w, _ = sh(cmd, timeout=timeout, mem_gb=mem_gb, cancel=cancel, env=dict(os.environ, TMPDIR=tmpd))
+    if rc in (-8, -9):
+        import glob
+        for f in glob.glob(os.path.join(tmpd, 'smt2_dec_problem_*')):
+            try:
+                if time.time() - os.path.getmtime(f) > 5 and not _pid_alive(f):
+                    os.remove(f)
+            except OSError:
+                pass
     res = dict(cmd=' '.join(cmd), rc=rc, wall_s=round(w, 2), status=None, failed=[], props=0, trace_inputs=None, solver=solver or 'minisat',
                vccs=None, remaining=None, solver_s=None, errors=[])
     if rc == -9:
